@@ -97,6 +97,20 @@ def gen_history(rng, maxlen):
         ops.append({'k': 'remove', 'spec': 'ax:1', 'gone': sorted(gone)})
         inst = [s for s in inst if s not in gone]
         ops.append({'k': 'obs'})
+    if rng.random() < 0.4:
+        # one file: the extension of a:1 first, then a:2, which uses the same entity ids as a:1
+        if 'a:1' not in inst:
+            ops.append({'k': 'add', 'res': docs.resource([U['a:1'][0]], U['a:1'][1])})
+            inst.append('a:1')
+            ops.append({'k': 'obs'})
+        if 'ax:1' not in inst and 'a:2' not in inst:
+            ops.append({'k': 'add', 'res': docs.resource([U['ax:1'][0], U['a:2'][0]], U['ax:1'][1])})
+            inst += ['ax:1', 'a:2']
+            ops.append({'k': 'obs'})
+            if rng.random() < 0.5:
+                ops.append({'k': 'remove', 'spec': 'a:1', 'gone': sorted(s for s in ('a:1', 'ax:1', 'axx:1') if s in inst)})
+                inst = [s for s in inst if s not in ('a:1', 'ax:1', 'axx:1')]
+                ops.append({'k': 'obs'})
     if rng.random() < 0.35:
         # one resource with two lexicons supplied in memory, one of them removed, the same resource supplied again
         pair = [s for s in ('u:1', 'd:1')]
@@ -309,13 +323,14 @@ def judge(ctx, sc, im, mo):
             for o, oe in zip(g2, exp):
                 for w, we in zip(o['scope']['words'], oe['scope']['words']):
                     for f, fe in zip(w['forms'], we['forms']):
-                        for t in list(f['tags']):
+                        # the residue was written after the form's own rows: take the surplus away from the end
+                        for t in list(f['tags'])[::-1]:
                             if f['tags'].count(t) > fe['tags'].count(t) and json.dumps(['tag'] + t) in res:
-                                f['tags'].remove(t)
+                                del f['tags'][len(f['tags']) - 1 - f['tags'][::-1].index(t)]
                                 removed.append(['tag', w['id'], t])
-                        for p in list(f['prons']):
+                        for p in list(f['prons'])[::-1]:
                             if f['prons'].count(p) > fe['prons'].count(p) and json.dumps(['pron'] + p) in res:
-                                f['prons'].remove(p)
+                                del f['prons'][len(f['prons']) - 1 - f['prons'][::-1].index(p)]
                                 removed.append(['pron', w['id'], p])
         d2 = c01.diff(g2, exp)
         if removed:
